@@ -51,8 +51,8 @@ struct Init {
     Init() {
         {   // C01 blocking put/get round trip
             Profile p; p.id = "C01"; p.level = "exploration"; p.technique = "deterministic simulation: seeded schedules over a simulated MPI job, model-based round-trip oracle + independent decoder";
-            p.rule = "one seed = one generated program (schema, blocking writes split among 1..6 simulated ranks through random API forms, reads through other forms, reopen) under one seeded schedule; non-trivial = run completed, wrote data and read at least one element back; distinct by program shape x interleaving hash";
-            p.gen = [](uint64_t seed, bool th) { GenParams g; g.max_np = th ? 8 : 6; g.max_data_ops = th ? 24 : 14; g.big = true; g.hints = th; g.erange = true; return gen_program(seed, g, "C01"); };
+            p.rule = "one seed = one generated program (schema, blocking writes split among 1..6 simulated ranks through random API forms, reads through other forms, reopen; a third of the seeds with random hints incl. intra-node aggregation) under one seeded schedule; non-trivial = run completed, wrote data and read at least one element back; distinct by program shape x interleaving hash";
+            p.gen = [](uint64_t seed, bool th) { GenParams g; g.max_np = th ? 8 : 6; g.max_data_ops = th ? 24 : 14; g.big = true; g.hints = th || (seed % 3 == 0); g.erange = true; return gen_program(seed, g, "C01"); };   // hints: intra-node aggregation, alignment, swap and chunk settings on a third of the quick seeds
             p.check = [](Program &q) { RunOpts o; return run_program(q, o); };
             p.nontrivial = [](const Program &q, const RunResult &r) { return r.completed && r.st.bytes_written > 0 && r.st.bytes_read > 0; };
             p.quick_s = 40; p.thorough_s = 600;
